@@ -26,7 +26,10 @@ try:
             elif l.startswith('UNDECIDED'):
                 und.setdefault(p, set()).add('load'); detail.append('    ' + l[:300])
     f = lambda d: ' '.join('%s[%s]' % (p, ','.join(sorted(r))) for p, r in sorted(d.items()))
-    print('own-check %s: %s | fired: %s | undecided: %s' % (own, 'YES' if own in det else 'NO ', f(det) or '-', f(und) or '-'))
-    for d in detail[:8]: print(d)
+    lines = ['own-check %s: %s | fired: %s | undecided: %s' % (own, 'YES' if own in det else 'NO ', f(det) or '-', f(und) or '-')] + detail[:8]
 finally:
     subprocess.call(['git', '-C', '/repo', 'checkout', '--', '.']); subprocess.call(['git', '-C', '/repo', 'clean', '-fdq'])
+try:
+    for ln in lines: print(ln)
+except BrokenPipeError:
+    pass
